@@ -24,7 +24,7 @@ META = {
                     "absolute tolerance 1e-9 on tail probabilities (the implementation's 1-cdf form has absolute accuracy)"],
     "deciding": ["poisson_evaluations._number_test_ndarray", "binomial_evaluations._nbd_number_test_ndarray", "stats.get_quantiles"],
 }
-META["added"] = "Added: re-scaling histories with total reads in between, array-valued scale factors (per cell, per magnitude bin, full table), observed counts above 16384 through the public wrappers, in-place mutation of yielded catalogs before the catalog N-test. forecasts streamed from files with placeholder rows / id gaps, NBD variance ratios 1+1e-9..1e9. catalogs with events outside the forecast's magnitude range, scaled T-test before the N-test, reference total snapshotted before any library call. filtered lazy forecasts after earlier passes, integer-dtype rate tables. the factor in force is tracked by the harness (not read back from the forecast), forecasts scaled to a test date in leap and ordinary years."
+META["added"] = "Added: observed catalogs with events outside the forecast's region, NBD N-test on forecasts that carry a scale factor. re-scaling histories with total reads in between, array-valued scale factors (per cell, per magnitude bin, full table), observed counts above 16384 through the public wrappers, in-place mutation of yielded catalogs before the catalog N-test. forecasts streamed from files with placeholder rows / id gaps, NBD variance ratios 1+1e-9..1e9. catalogs with events outside the forecast's magnitude range, scaled T-test before the N-test, reference total snapshotted before any library call. filtered lazy forecasts after earlier passes, integer-dtype rate tables. the factor in force is tracked by the harness (not read back from the forecast), forecasts scaled to a test date in leap and ordinary years."
 MANIFEST = {
     "technique": "runtime post-conditions on the real number-test primitives and public tests vs independent incomplete-gamma/beta and explicit pmf-sum oracles; identity and monotonicity checkers over a parameter grid",
     "level_text": "Each call of the Poisson / NBD / empirical number-test primitives (2e4 quick, 1e6 thorough grid points plus end-to-end runs through the three public tests on generated forecasts and catalogs, including scaled forecasts) is checked against tails computed by incomplete gamma/beta functions and explicit pmf summation; delta1+delta2 = 1+pmf and monotonicity in the mean are checked across the grid.",
@@ -184,7 +184,7 @@ def ex_emp(ctx, sizes, n):
     ctx.call(stats.get_quantiles, numpy.asarray(sizes), n)
 
 
-def _small_setup(total, n_obs, rng, scale=None, int_rates=False):
+def _small_setup(total, n_obs, rng, scale=None, int_rates=False, outside=0):
     mags = fixtures.mag_bins("4.95", "0.1", 3)
     reg = fixtures.region(2, 2, 0.1, 10.0, 20.0, magnitudes=mags)
     w = rng.uniform(0.1, 1.0, (4, 3))
@@ -205,6 +205,14 @@ def _small_setup(total, n_obs, rng, scale=None, int_rates=False):
     cells = rng.integers(0, 4, n_obs)
     lons, lats = fixtures.events_in_cells(reg, cells, rng)
     # n_obs is the number of events IN THE CATALOG: some of them lie below the forecast's lowest magnitude edge or far above its last one
+    if outside and n_obs:
+        # some of the catalog's events lie outside the forecast's spatial region (a catalog that was not filtered spatially): they are events of
+        # the observed catalog all the same
+        k_ = min(outside, n_obs)
+        lons = numpy.asarray(lons, dtype=float).copy()
+        lats = numpy.asarray(lats, dtype=float).copy()
+        lons[:k_] = 10.0 + 0.1 * 2 + 0.35          # east of the 2 x 2 grid
+        lats[-1] = 20.0 - 0.45                      # south of it
     cat = fixtures.catalog(lons, lats, rng.choice([5.0, 5.05, 5.2, 4.2, 4.9499, 8.7], n_obs), region=reg)
     fore._verif_factor = factor
     return fore, cat
@@ -226,7 +234,8 @@ TEST_DATES = [((2012, 1, 1), (2013, 1, 1), (2012, 6, 29)), ((2012, 1, 1), (2013,
 def ex_e2e_poisson(ctx, total, n_obs, scale=None, seed=0, rescale_history=None):
     import csep.core.poisson_evaluations as pe
     rng = numpy.random.default_rng([seed, 7])
-    fore, cat = _small_setup(total, n_obs, rng, scale, int_rates=(seed % 7 == 5 and not rescale_history))
+    fore, cat = _small_setup(total, n_obs, rng, scale, int_rates=(seed % 7 == 5 and not rescale_history),
+                             outside=(1 + seed % 3) if (seed % 4 == 1 and seed % 5 != 3) else 0)
     base = numpy.array(fore._data, dtype=float, copy=True)       # the stored table as built: nothing below may change it
     if rescale_history:
         # history on one forecast object: the total is read (event_count / an N-test), then the same object is re-scaled
@@ -278,14 +287,15 @@ def ex_e2e_poisson(ctx, total, n_obs, scale=None, seed=0, rescale_history=None):
 def ex_e2e_nbd(ctx, total, n_obs, var, seed=0):
     import csep.core.binomial_evaluations as be
     rng = numpy.random.default_rng([seed, 8])
-    fore, cat = _small_setup(total, n_obs, rng)
+    # every third case: the forecast carries a scale factor (scale() / scale_to_test_date()); the variance is the one given, whatever the factor
+    fore, cat = _small_setup(total, n_obs, rng, scale=[None, 0.5, 3.0, 0.25][(seed // 3) % 4] if seed % 3 == 1 else None, outside=(seed % 5 == 2))
     case = {"exec": "e2e_nbd", "args": {"total": total, "n_obs": n_obs, "var": var, "seed": seed}}
     ok, res, tb = ctx.call(be.negative_binomial_number_test, fore, cat, var)
     ctx.mon("e2e:nbd number_test", 1)
     if not ok:
         ctx.violate("NBD number_test raised", case, observed=repr(res), tb=tb, tags={"law": "nbd", "e2e": True})
         return
-    mu = float(math.fsum(fore._data.ravel().tolist()))
+    mu = float(math.fsum((numpy.array(fore._data, dtype=float) * fore._verif_factor).ravel().tolist()))
     if not var > mu * (1 + 1e-9):
         return
     ge, le, pmf = nbd_tails(mu, var, n_obs)
